@@ -83,7 +83,7 @@ var svcbKeyHandlers = map[string]svcbKeyHandler{
 
 	"ipv6hint": func(valStr string) (val dns.SVCBKeyValue) {
 		ip := net.ParseIP(valStr)
-		if ip == nil {
+		if ip == nil || ip.To4() != nil {
 			log.Debug("can't parse svcb/https ipv6 hint %q; ignoring", valStr)
 
 			return nil
@@ -187,12 +187,40 @@ func (s *Server) genAnswerSVCB(req *dns.Msg, svcb *rules.DNSSVCB) (ans *dns.SVCB
 			continue
 		}
 
+		// The handlers take the value as text.  What they produce may still be
+		// something that can't be sent: a hint of the other address family, an
+		// empty or overlong ALPN identifier, a value too long for a record.
+		// A response with such a parameter can't be packed at all, so ignore
+		// the parameter like an unparsable one.
+		if !svcbValuesFit(val) {
+			log.Debug("svcb/https key %q: value can't be put into a record, ignoring", k)
+
+			continue
+		}
+
 		values = append(values, val)
 	}
 
 	if len(values) > 0 {
 		ans.Value = values
+		if !svcbValuesFit(values...) {
+			// Every parameter fits on its own, all of them together don't.
+			log.Debug("svcb/https parameters don't fit into a record together, ignoring")
+			ans.Value = nil
+		}
 	}
 
 	return ans
+}
+
+// svcbValuesFit returns true if a record that carries vals can be packed.
+func svcbValuesFit(vals ...dns.SVCBKeyValue) (ok bool) {
+	probe := &dns.SVCB{
+		Hdr:    dns.RR_Header{Name: ".", Rrtype: dns.TypeSVCB, Class: dns.ClassINET},
+		Target: ".",
+		Value:  vals,
+	}
+	_, err := dns.PackRR(probe, make([]byte, dns.MaxMsgSize), 0, nil, false)
+
+	return err == nil
 }
